@@ -25,7 +25,8 @@ def render(components, arrows, rng):
 
 
 def make_case(rng, comps_pool=gen.PLAIN, absent=None, nested=False):
-    base = "p"
+    # now and then the base package is called like a standard library module (a root package `platform`, `code`, ...)
+    base = rng.choice(["p", "p", "p", "platform", "code"])
     kids = rng.sample([c for c in comps_pool if c != base], rng.randint(2, 6))
     if rng.random() < 0.25:
         # a component named like the base module itself (package p.p): with_base_module("p") must still mean p.p
@@ -34,10 +35,14 @@ def make_case(rng, comps_pool=gen.PLAIN, absent=None, nested=False):
     for k in kids:
         for sub in rng.sample(comps_pool, rng.randint(0, 2)):
             nodes.append(f"{base}.{k}.{sub}")
-    for b in rng.sample(["q", "p.zz", "q.r"], rng.randint(0, 2)):
+    for k in kids:
+        if rng.random() < 0.2:
+            nodes.append(f"{base}.{k}.__init__")       # the package's own __init__ module (scanned by default)
+    # bystanders: other packages, a module of the base package that is no component, modules called like library modules
+    for b in rng.sample(["q", f"{base}.zz", "q.r", "json", "os.path", f"{base}.__init__"], rng.randint(0, 3)):
         nodes.append(b)
-        if b == "q.r" and "q" not in nodes:
-            nodes.append("q")
+        if "." in b and b.split(".")[0] not in nodes:
+            nodes.append(b.split(".")[0])
     nodes = list(dict.fromkeys(nodes))
     ncomp = rng.randint(2, len(kids))
     comps = kids[:ncomp]
